@@ -45,6 +45,11 @@ def gen_dataset(rnd, buf):
                 else:
                     e["st"] = t0 + rnd.randrange(1, buf * MIN // 2) if k % 2 else t0 + extent - rnd.randrange(2, buf * MIN // 2)
                     e["en"] = e["st"] + 1
+        if kind == "in" and len(tr) >= 3 and rnd.random() < 0.5:
+            # siblings started in the same clock tick (fan-out; coarse timestamps): their order is a tie
+            for e in tr[1:]:
+                e["st"] = tr[1]["st"]
+                e["en"] = max(e["en"], e["st"])
         if kind == "twin" and base[0]:
             # same shape as an earlier trace (so that -ug has something to merge)
             src = base[0]
@@ -74,7 +79,8 @@ def gen_cases(out, explore):
             hist = [(True, True, True), (False, True, True)][:L] + hist[2:]      # the job_hashes history
         if k % 7 == 1:
             hist = [(True, False, True), (True, False, True)] + hist[2:]         # the re-ingest history
-        cases.append(dict(events=evs, bs=rnd.choice([2, 1000]), buf=buf, history=hist))
+        cases.append(dict(events=evs, bs=rnd.choice([2, 1000]), buf=buf, history=hist,
+                          hashseeds=[rnd.choice([0, 1, 7, 99, 12345, 4242]) for _ in hist]))
     if not quick:   # all histories of length <= 3 after an ingesting first run on two fixed data sets
         for seed in (1, 2):
             evs = gen_dataset(random.Random(seed), 0)
@@ -92,7 +98,7 @@ def run_history(case):
         for k, (ing, ug, save) in enumerate(case["history"]):
             outd = d / f"run{k}"
             args = ["-o", str(outd), "otel2pv", "-c", str(cfg)] + (["-se"] if save else []) + ([] if ing else ["-ni"]) + (["-ug"] if ug else [])
-            rc, tail = C.run_cli(args, d)
+            rc, tail = C.run_cli(args, d, hashseed=case.get("hashseeds", [0] * 9)[k])       # every process its own hash seed
             pv = C.read_pv_dir(outd) if save else None
             res.append(dict(rc=rc, pv=pv, tail=tail if rc else ""))
         return res
